@@ -113,7 +113,7 @@ Section WithMerge.
             if Nat.ltb lvl (length m) || Nat.eqb (length m) 0 then
               Some {| top := top s; mid := Some m'; base := base s; clean := clean s;
                       ll := ll s; merger := MSwapped; persister := persister s;
-                      cached := cached s; closed := false |}
+                      cached := match m with [] => cached s | _ => None end; closed := false |}
             else None
         | _ => None
         end
